@@ -10,6 +10,7 @@ import (
 	"runtime"
 	"strings"
 	"time"
+	wdog "verifharness/wd"
 
 	"verifharness/pipx"
 )
@@ -98,7 +99,7 @@ func cmdPipTrace(args []string) error {
 		select {
 		case err := <-done:
 			wd.Log.Emit(map[string]interface{}{"ev": "mwait", "err": err != nil})
-		case <-time.After(15 * time.Second):
+		case <-wdog.After(15 * time.Second):
 			buf := make([]byte, 1<<16)
 			k := runtime.Stack(buf, true)
 			wd.Log.Emit(map[string]interface{}{"ev": "hang", "what": "TasksManager.Wait did not return within 15 s", "goroutines": string(buf[:k])})
